@@ -347,6 +347,42 @@ func TestVerif_C22_Calls(t *testing.T) {
 		rep.Count(fmt.Sprintf("rank_%d_of_%d", rank, len(su)), 1)
 	}
 
+	// Every slice returned by getActionsChecklist (and every allowed-actions slice
+	// derived from one the way coordinate() does) is kept, as its caller keeps it for
+	// the whole active phase, and ALL of them are read again after every later call
+	// on any executor: what a caller holds must never change.
+	type keptSlice struct {
+		k      int
+		raw    []WalletActionType
+		exp    []string
+		what   string
+		broken bool
+	}
+	var kept []*keptSlice
+	nKept := 0
+	recheck := func(after string) {
+		for _, ks := range kept {
+			now := c22Strings(ks.raw)
+			if !c22Eq(now, ks.exp) {
+				if !ks.broken {
+					ks.broken = true
+					emit(map[string]interface{}{"event": "Recheck", "k": ks.k, "out": now})
+					rep.Diverge("checklist:changed-after-return",
+						fmt.Sprintf("the %s read %v when it was returned and reads %v after a later call (%s): the slices share a backing array", ks.what, ks.exp, now, after),
+						map[string]interface{}{"held": ks.what, "laterCall": after}, ks.exp, now)
+				}
+			}
+		}
+		// a seeded sample of the unchanged ones goes to the trace as well
+		for j := 0; j < 2 && len(kept) > 0; j++ {
+			ks := kept[rnd.Intn(len(kept))]
+			if !ks.broken {
+				emit(map[string]interface{}{"event": "Recheck", "k": ks.k, "out": c22Strings(ks.raw)})
+			}
+		}
+		rep.Count("rechecks", len(kept))
+	}
+
 	seedsOf := map[int][]*seedCase{}
 	for _, sc := range seeds {
 		seedsOf[sc.w] = append(seedsOf[sc.w], sc)
@@ -424,9 +460,25 @@ func TestVerif_C22_Calls(t *testing.T) {
 					}
 					b := c22Block(c.Get("b").Int())
 					idx := newCoordinationWindow(b).index()
-					out := c22Strings(main.ce.getActionsChecklist(idx, sc.seed))
+					raw := main.ce.getActionsChecklist(idx, sc.seed)
+					out := c22Strings(raw)
 					main.calls++
-					emit(map[string]interface{}{"event": "Checklist", "e": main.id, "seed": seedHex, "b": b, "idx": idx, "out": out})
+					nKept++
+					this := &keptSlice{k: nKept, raw: raw, exp: out, what: fmt.Sprintf("checklist of %s, seed %s.., window index %d", main.id, seedHex[:8], idx)}
+					emit(map[string]interface{}{"event": "Checklist", "e": main.id, "seed": seedHex, "b": b, "idx": idx, "out": out, "k": this.k})
+					recheck(this.what)
+					kept = append(kept, this)
+					if (ci+si+mi)%2 == 0 {
+						// what coordinate() does on a follower: actionsAllowed = append(checklist, ActionNoop),
+						// used for the whole active phase
+						allowed := append(raw, ActionNoop)
+						nKept++
+						al := &keptSlice{k: nKept, raw: allowed, exp: append(append([]string{}, out...), ActionNoop.String()),
+							what: fmt.Sprintf("allowed actions (checklist + Noop) of %s, seed %s.., window index %d", main.id, seedHex[:8], idx)}
+						emit(map[string]interface{}{"event": "AppendNoop", "k": this.k, "k2": al.k, "out": c22Strings(allowed)})
+						recheck(al.what)
+						kept = append(kept, al)
+					}
 					cc := map[string]interface{}{"wallet": wname, "seed": seedHex, "coordinationBlock": b, "heartbeatSeed": sc.hb, "askedOn": fmt.Sprintf("%s call %d", main.id, main.calls)}
 					nt := ""
 					if c.Get("idx").Int() > 0 {
@@ -467,6 +519,7 @@ func TestVerif_C22_Calls(t *testing.T) {
 			}
 		}
 	}
+	rep.Count("kept_slices", len(kept))
 	rep.Count("executors", len(execs))
 	rep.Count("events", tr.N())
 }
